@@ -129,13 +129,55 @@ Proof. reflexivity. Qed.
 
 (** steps_per_second over R: [sps_R] (model/Estimator.v) *)
 
-Lemma est_sps_R : forall (e : est R) now,
-  est_sps Rar e now =
+(** the function before fix 56491a5 is the plain formula; the current one returns 0 when the
+    normaliser is zero, i.e. when no time has passed since the (re)start *)
+Lemma est_sps_pre_R : forall (e : est R) now,
+  est_sps_pre_56491a5 Rar e now =
   sps_R (sm e) (dsm e) (W (secs (now - prev_time e))) (1 - W (secs (now - start_time e))).
+Proof.
+  intros e now. unfold est_sps_pre_56491a5, since, sps_R.
+  rewrite !dur_secs_R, !est_weight_R, fone_R. reflexivity.
+Qed.
+
+Lemma is_zero_R_iff : forall x, is_zero Rar x = true <-> x = 0.
+Proof.
+  intros x. cbn [is_zero Rar]. destruct (Req_EM_T x 0); split; intros H; try reflexivity;
+    try assumption; try discriminate H. contradiction.
+Qed.
+
+Lemma est_sps_unfold_R : forall (e : est R) now,
+  est_sps Rar e now =
+  if is_zero Rar (1 - W (secs (now - start_time e))) then 0
+  else sps_R (sm e) (dsm e) (W (secs (now - prev_time e))) (1 - W (secs (now - start_time e))).
 Proof.
   intros e now. unfold est_sps, since, sps_R.
   rewrite !dur_secs_R, !est_weight_R, fone_R. reflexivity.
 Qed.
+
+(** strictly after the (re)start: the formula *)
+Lemma est_sps_R : forall (e : est R) now, (start_time e < now)%N ->
+  est_sps Rar e now =
+  sps_R (sm e) (dsm e) (W (secs (now - prev_time e))) (1 - W (secs (now - start_time e))).
+Proof.
+  intros e now Hst. rewrite est_sps_unfold_R.
+  destruct (is_zero Rar (1 - W (secs (now - start_time e)))) eqn:Z; [|reflexivity].
+  apply is_zero_R_iff in Z.
+  assert (H : W (secs (now - start_time e)) < 1) by (apply W_lt_1, secs_pos; lia). lra.
+Qed.
+
+(** at (or, with a non-monotonic clock, before) the instant of the (re)start: 0 *)
+Lemma est_sps_R_restart : forall (e : est R) now, (now <= start_time e)%N -> est_sps Rar e now = 0.
+Proof.
+  intros e now Hst. rewrite est_sps_unfold_R.
+  replace (now - start_time e)%N with 0%N by lia. rewrite secs_0, W_0.
+  replace (1 - 1) with 0 by ring.
+  destruct (is_zero Rar 0) eqn:Z; [reflexivity|].
+  assert (H : is_zero Rar 0 = true) by (apply is_zero_R_iff; reflexivity). congruence.
+Qed.
+
+Lemma est_sps_old_new : forall (e : est R) now, (start_time e < now)%N ->
+  est_sps Rar e now = est_sps_pre_56491a5 Rar e now.
+Proof. intros e now H. rewrite est_sps_R by exact H. symmetry. apply est_sps_pre_R. Qed.
 
 (** [seg_rate e new now] (model/Estimator.v) = the rate of the segment a record would add *)
 Definition rec_s (e : est R) (new now : N) : R :=
@@ -480,12 +522,12 @@ Proof.
 Qed.
 
 (** ** Queries *)
-Lemma est_sps_split : forall e now, wf e -> (prev_time e <= now)%N ->
+Lemma est_sps_split : forall e now, wf e -> (prev_time e <= now)%N -> (start_time e < now)%N ->
   est_sps Rar e now =
   sps_R (sm e) (dsm e) (W (secs (now - prev_time e)))
         (1 - W (secs (prev_time e - start_time e)) * W (secs (now - prev_time e))).
 Proof.
-  intros e now Hwf Hn. rewrite est_sps_R, (W_split e now) by assumption. reflexivity.
+  intros e now Hwf Hn Hst. rewrite est_sps_R, (W_split e now) by assumption. reflexivity.
 Qed.
 
 Lemma sps_nonneg : forall e now, wf e -> J_nonneg e ->
@@ -513,7 +555,7 @@ Qed.
 Lemma sps_steady : forall r e, wf e -> J_steady r e -> (start_time e < prev_time e)%N ->
   est_sps Rar e (prev_time e) = r.
 Proof.
-  intros r e Hwf [Hs Hd] Hst. rewrite est_sps_R. rewrite N.sub_diag, secs_0, W_0.
+  intros r e Hwf [Hs Hd] Hst. rewrite est_sps_R by exact Hst. rewrite N.sub_diag, secs_0, W_0.
   unfold sps_R. rewrite Hs, Hd. unfold Np.
   assert (H := denominator_pos (prev_time e - start_time e) ltac:(lia)).
   change (T Rar) with R. field. lra.
@@ -524,7 +566,7 @@ Lemma sps_decay : forall e now1 now2, wf e -> 0 <= sm e -> sm e <= dsm e ->
   est_sps Rar e now2 <= est_sps Rar e now1.
 Proof.
   intros e now1 now2 Hwf Hs Hsd H1 H12 Hst.
-  rewrite !est_sps_split by (try assumption; lia).
+  rewrite (est_sps_split e now1), (est_sps_split e now2) by (try assumption; lia).
   apply alg_sps_decay; auto using A_range.
   - split; [left; apply W_pos|]. apply W_decr, secs_le. lia.
   - apply W_le_1, secs_nonneg.
@@ -547,19 +589,26 @@ Qed.
 Lemma est_new_is_restart : forall now, est_new Rar now = (mkEst 0 0 0%N now now : est R).
 Proof. reflexivity. Qed.
 
-(** FINITE / NON-NEGATIVE *)
+(** FINITE / NON-NEGATIVE: at EVERY query instant not before the last call (the instant of the
+    restart included, where the code returns 0 since fix 56491a5); the only division executed is
+    by the normaliser, which is positive whenever it is not zero, i.e. strictly after the restart *)
 Theorem finite_nonneg : forall evs t0 now,
   let e := est_run evs (est_new Rar t0) in
   hist_ok evs (est_new Rar t0) ->
-  (prev_time e <= now)%N -> (start_time e < now)%N ->
-  0 < 1 - W (secs (now - start_time e)) /\ 0 <= est_sps Rar e now.
+  (prev_time e <= now)%N ->
+  0 <= est_sps Rar e now /\
+  ((start_time e < now)%N -> 0 < 1 - W (secs (now - start_time e))) /\
+  ((now <= start_time e)%N -> est_sps Rar e now = 0).
 Proof.
-  intros evs t0 now e Hh Hn Hs.
+  intros evs t0 now e Hh Hn.
   destruct (restart_state_invariants 0%N t0 0 0) as (Hwf & Hnn & _).
   destruct (inv_nonneg evs (est_new Rar t0) Hwf Hnn Hh) as [HJ Hwf'].
-  split.
-  - apply denominator_pos. lia.
-  - now apply sps_nonneg.
+  split; [|split].
+  - destruct (N.lt_ge_cases (start_time e) now) as [Hs | Hs].
+    + now apply sps_nonneg.
+    + rewrite est_sps_R_restart by exact Hs. lra.
+  - intros Hs. apply denominator_pos. lia.
+  - apply est_sps_R_restart.
 Qed.
 
 (** STEADY-RATE EXACTNESS *)
@@ -740,7 +789,7 @@ Definition wit_e : est R := mkEst (9009 / 100) (8199 / 100) 1515%N 30000000000%N
 Lemma wit_rise : est_sps Rar wit_e 30000000000 < est_sps Rar wit_e 30500000000.
 Proof.
   unfold wit_e.
-  rewrite !est_sps_R. cbn [sm dsm prev_time start_time].
+  rewrite !est_sps_R by (cbn [start_time]; lia). cbn [sm dsm prev_time start_time].
   change (30000000000 - 30000000000)%N with 0%N.
   change (30000000000 - 0)%N with 30000000000%N.
   change (30500000000 - 30000000000)%N with 500000000%N.
@@ -948,7 +997,7 @@ Proof.
   assert (Hw : 0 < W (secs (now - prev_time e)) <= 1).
   { split; [apply W_pos | apply W_le_1, secs_nonneg]. }
   assert (P1 : progress_seen e -> 0 < est_sps Rar e now).
-  { intros Hseen. destruct (Hp Hseen) as [Hs Hd]. rewrite est_sps_R. unfold sps_R.
+  { intros Hseen. destruct (Hp Hseen) as [Hs Hd]. rewrite est_sps_R by exact Hst. unfold sps_R.
     set (n := 1 - W (secs (now - start_time e))) in *.
     set (w := W (secs (now - prev_time e))) in *.
     assert (0 < dsm e * w) by (apply Rmult_lt_0_compat; lra).
@@ -957,7 +1006,7 @@ Proof.
     apply Rdiv_lt_0_compat; lra. }
   assert (P2 : ~ progress_seen e -> est_sps Rar e now = 0).
   { intros Hno. unfold progress_seen, wf in *.
-    destruct Hz as [Hs Hd]; [lia|]. rewrite est_sps_R. unfold sps_R. rewrite Hs, Hd.
+    destruct Hz as [Hs Hd]; [lia|]. rewrite est_sps_R by exact Hst. unfold sps_R. rewrite Hs, Hd.
     unfold Rdiv. rewrite !Rmult_0_l. rewrite Rplus_0_l, Rmult_0_l. reflexivity. }
   split; [exact P1|]. split; [exact P2|]. split.
   - intros Hz0 Hseen. specialize (P1 Hseen). lra.
@@ -992,9 +1041,9 @@ Qed.
 
 (** * WHEN DOES THE STALLED RATE RISE?  Exactly when smoothed > double_smoothed.
     [stall_rate e x] is the rate reported x seconds after the last accepted sample. *)
-Lemma stall_rate_spec : forall e now, wf e -> (prev_time e <= now)%N ->
+Lemma stall_rate_spec : forall e now, wf e -> (prev_time e <= now)%N -> (start_time e < now)%N ->
   est_sps Rar e now = stall_rate e (secs (now - prev_time e)).
-Proof. intros e now Hwf Hn. unfold stall_rate. now apply est_sps_split. Qed.
+Proof. intros e now Hwf Hn Hst. unfold stall_rate. now apply est_sps_split. Qed.
 
 Lemma W_onto : forall w, 0 < w < 1 -> exists x, 0 < x /\ W x = w.
 Proof.
